@@ -213,6 +213,12 @@ class SSHLocalForwarder(SSHForwarder):
 
         assert self._peer is not None
 
+        if not self._transport:
+            # The local connection went away while the channel was being
+            # opened, so there's nothing left to forward it to
+            self.close()
+            return
+
         if self._inpbuf:
             self._peer.write(self._inpbuf)
             self._inpbuf = b''
